@@ -183,11 +183,13 @@ def size_slots(ht, kind):
     return out
 
 
-def check_sizes(ctx, ht, rule):
+def check_sizes(ctx, ht, rule, select=lambda f: True):
     P = ht.P
     # --- data-section size
     forms = []
     for s in size_slots(ht, 'DATA_BLOCKS'):
+        if not select(s.func):
+            continue
         fm = FactMap(s.func.node)
         # one evaluation per definition of the stored local (2D / 3D branch of make_header)
         defs = [s.value]
@@ -222,6 +224,8 @@ def check_sizes(ctx, ht, rule):
                      'written/addressed' % (U(d)[:60], v, dsk), line=d.lineno)
     # --- header array length
     for s in size_slots(ht, 'HEADER_ARRAY_BYTES'):
+        if not select(s.func):
+            continue
         defs = [s.value]
         if isinstance(s.value, ast.Name):
             defs = [n.value for n in ast.walk(s.func.node) if isinstance(n, ast.Assign) and len(n.targets) == 1
@@ -242,6 +246,8 @@ def check_sizes(ctx, ht, rule):
                          '4*count(XL)*count(IL) (or 4*traces for 2D)' % (U(d)[:60], v), line=d.lineno)
     # --- trace count slot
     for s in size_slots(ht, 'TRACECOUNT'):
+        if not select(s.func):
+            continue
         e = s.value
         ok = False
         why = ''
